@@ -36,6 +36,7 @@ THEOREMS = [
     "Optyx.Props.Dispatch.solve_autoSelect_eq_generated",
     "Optyx.Props.Dispatch.solve_route_eq_generated",
     "Optyx.Props.SolveTie.finish_objective_eq",
+    "Optyx.Props.SolveTie.reported_objective_of_source_equations",
     "Optyx.Props.SolveTie.solutionKwargs_pin",
     "Optyx.Props.StateTie.edits_are_source",
     "Optyx.Props.BuildTie.compile_step",
